@@ -65,6 +65,102 @@ theorem linv_quiet {g g' : G} {t : Tid} (hi : LInv g)
   · intro k i h; rw [hk] at h; rw [hn]; exact hi.freshK k i h
   · intro t' h; rw [hIn] at h; rw [hLk, hn]; exact hi.freshT t' h
 
+/-- the last block of MemoryLock.Unlock: `locked--`, and the map entry is dropped iff nobody else is
+counted on it -/
+theorem linv_dec {g : G} {t : Tid} {k : Key} {keys' : Key → Option Nat} (hi : LInv g)
+    (hpc : (g.threads t).pc = .unlockDec) (hk : (g.threads t).req.key = some k)
+    (hkeys : (keys' = g.keys ∧ ¬ (g.locks (g.threads t).lk).locked - 1 ≤ 0) ∨
+             (keys' = (fun k' => if k' = k then none else g.keys k') ∧ (g.locks (g.threads t).lk).locked - 1 ≤ 0)) :
+    LInv ({ g.setLock (g.threads t).lk { g.locks (g.threads t).lk with
+              locked := (g.locks (g.threads t).lk).locked - 1, users := (g.locks (g.threads t).lk).users.erase t } with
+            keys := keys' }.setThread t { g.threads t with pc := .done }) := by
+  have hin : inLock (g.threads t).pc = true := by simp [hpc, inLock]
+  have hmem : t ∈ (g.locks (g.threads t).lk).users := (hi.users _ t).2 ⟨hin, rfl⟩
+  have hnd := hi.nodup (g.threads t).lk
+  have hcnt := hi.count (g.threads t).lk
+  obtain ⟨k0, hk0, hp0⟩ := hi.ptr t hin
+  rw [hk] at hk0; cases hk0
+  refine ⟨?_, ?_, ?_, ?_, ?_, ?_, ?_⟩
+  · intro t' h
+    by_cases ht : t' = t
+    · subst ht; simp [inLock] at h
+    · simp only [setThread_threads_ne _ _ ht, setLock_threads, setThread_keys] at h ⊢
+      obtain ⟨k', hk', hp⟩ := hi.ptr t' h
+      refine ⟨k', hk', ?_⟩
+      rcases hkeys with ⟨rfl, _⟩ | ⟨rfl, hz⟩
+      · exact hp
+      · by_cases hkk : k' = k
+        · subst hkk
+          rw [hp0] at hp
+          have hlk := Option.some.inj hp
+          -- then t' is counted on the same object, which has at most one user: t
+          have hm' : t' ∈ (g.locks (g.threads t).lk).users := (hi.users _ t').2 ⟨h, hlk.symm⟩
+          have hlen : (g.locks (g.threads t).lk).users.length ≤ 1 := by omega
+          match hu : (g.locks (g.threads t).lk).users, hmem, hm', hlen with
+          | [x], h1, h2, _ =>
+            simp at h1 h2; exact absurd (h2.trans h1.symm) ht
+        · simp [hkk, hp]
+  · intro i' t'
+    simp only [setThread_locks]
+    by_cases hii : i' = (g.threads t).lk
+    · subst hii
+      simp only [G.setLock, if_true]
+      rw [hnd.mem_erase_iff]
+      by_cases ht : t' = t
+      · subst ht; simp [inLock]
+      · simp only [setThread_threads_ne _ _ ht, ne_eq, ht, not_false_eq_true, true_and]
+        exact hi.users _ t'
+    · simp only [G.setLock, hii, if_false]
+      by_cases ht : t' = t
+      · subst ht
+        simp only [setThread_threads_same, inLock]
+        constructor
+        · intro hx; have := ((hi.users i' t').1 hx).2; exact absurd this.symm hii
+        · intro ⟨h1, _⟩; exact absurd h1 (by simp)
+      · simp only [setThread_threads_ne _ _ ht]; exact hi.users i' t'
+  · intro i'
+    simp only [setThread_locks]
+    by_cases hii : i' = (g.threads t).lk
+    · subst hii; simp only [G.setLock, if_true]; exact hnd.erase t
+    · simp only [G.setLock, hii, if_false]; exact hi.nodup i'
+  · intro i'
+    simp only [setThread_locks]
+    by_cases hii : i' = (g.threads t).lk
+    · subst hii
+      simp only [G.setLock, if_true]
+      have h1 := List.length_erase_of_mem hmem
+      have h2 := List.length_pos_of_mem hmem
+      omega
+    · simp only [G.setLock, hii, if_false]; exact hi.count i'
+  · intro i' t'
+    simp only [setThread_locks]
+    have hl : (({ g.setLock (g.threads t).lk { g.locks (g.threads t).lk with
+              locked := (g.locks (g.threads t).lk).locked - 1, users := (g.locks (g.threads t).lk).users.erase t } with
+            keys := keys' } : G).locks i').holder = (g.locks i').holder := by
+      by_cases hii : i' = (g.threads t).lk
+      · subst hii; simp [G.setLock]
+      · simp [G.setLock, hii]
+    rw [hl]
+    by_cases ht : t' = t
+    · subst ht
+      simp only [setThread_threads_same, holds]
+      constructor
+      · intro hh; have := ((hi.holder i' t').1 hh).1; simp [hpc, holds] at this
+      · intro ⟨h1, _⟩; exact absurd h1 (by simp)
+    · simp only [setThread_threads_ne _ _ ht]; exact hi.holder i' t'
+  · intro k' i' h
+    simp only [setThread_keys, setThread_nextId] at h ⊢
+    rcases hkeys with ⟨rfl, _⟩ | ⟨rfl, _⟩
+    · exact hi.freshK k' i' h
+    · by_cases hkk : k' = k
+      · simp [hkk] at h
+      · simp [hkk] at h; exact hi.freshK k' i' h
+  · intro t' h
+    by_cases ht : t' = t
+    · subst ht; simp [inLock] at h
+    · simp only [setThread_threads_ne _ _ ht, setThread_nextId] at h ⊢
+      exact hi.freshT t' h
+
 theorem linv_step (life : Nat) {g g' : G} {t : Tid} (hi : LInv g) (hs : Step life g t g') : LInv g' := by
   cases hs with
   | arriveInvalid hpc hk hiv =>
@@ -361,8 +457,9 @@ theorem linv_step (life : Nat) {g g' : G} {t : Tid} (hi : LInv g) (hs : Step lif
       · simp only [setThread_threads_ne _ _ ht, setLock_threads, setThread_nextId, setLock_nextId] at h ⊢
         exact hi.freshT t' h
   | decDelete hpc k hk hz =>
-    sorry
+    exact linv_dec hi hpc hk (.inr ⟨rfl, hz⟩)
   | decKeep hpc k hk hz =>
-    sorry
+    have := linv_dec (keys' := g.keys) hi hpc hk (.inl ⟨rfl, hz⟩)
+    exact this
 
 end C17
